@@ -16,6 +16,8 @@ switched off through `avoid` (the tags returned with with_tags=True name the one
     "boolop-value"       a BoolOp over non-boolean operands used as a value:  (r.n and r.s) == "x"
     "nested-generator"   a generator expression inside the element / condition of another one (evaluated repeatedly)
     "reuse-variable"     a loop variable name used again by a later, non-nested generator of the same expression
+    "generator-iterable" the iterable of a 2nd / 3rd for clause is itself a generator expression (a one-shot iterator
+                         that has to be built again for every value of the enclosing clause); in DEFAULT_AVOID
     "reverse-typematch"  Type.<t> in <container>   (the compiled engine is known to differ: in DIVERGENT, the default
                          of `avoid`; C07 passes avoid=() to see it, C10/C16 keep the default)
 
@@ -28,6 +30,8 @@ import datetime as _dt
 import random
 
 DIVERGENT = ("reverse-typematch",)
+# categories only C07 asks for (avoid=()); everybody else keeps the expression stream they had before these were added
+DEFAULT_AVOID = DIVERGENT + ("generator-iterable",)
 
 # ---- record shapes -----------------------------------------------------------------------------------
 SUB_FIELDS = [("string", "ss"), ("varint", "sn"), ("net.ipaddress", "sip"), ("uri", "su")]
@@ -315,7 +319,7 @@ def _lit(v):
 
 
 class ExprGen:
-    def __init__(self, rng, info=None, support="must", avoid=DIVERGENT):
+    def __init__(self, rng, info=None, support="must", avoid=DEFAULT_AVOID):
         self.rng = rng
         self.info = info or SHAPE_INFO
         self.may = support != "must"
@@ -557,10 +561,15 @@ class ExprGen:
         if self.p(0.3):
             kind2 = self.ch(["int", "text"])
             v2 = self.var(env2)
-            clauses += " for %s in %s" % (v2, self.list(kind2, 0, env2))
+            clauses += " for %s in %s" % (v2, self.iterable(kind2, env2, v2))
             env2[v2] = kind2
             if self.p(0.3):
                 clauses += " if %s" % self.atom(0, env2)
+            if "generator-iterable" not in self.avoid and self.p(0.3):   # a third clause
+                kind3 = self.ch(["int", "text"])
+                v3 = self.var(env2)
+                clauses += " for %s in %s" % (v3, self.iterable(kind3, env2, v3))
+                env2[v3] = kind3
         if self.may_here():
             c = self.rng.random()
             if c < 0.4:      # tuple target
@@ -575,6 +584,27 @@ class ExprGen:
             elt = self.bool(min(d - 1, 1), env2) if self.p(0.3) else self.atom(0, env2)
         self.done_vars += [x for x in env2 if x not in env and x != "@gen" and x not in self.done_vars]
         return "%s(%s %s)" % (fn, elt, clauses)
+
+    def iterable(self, kind, env, target):
+        """Iterable of a non-first for clause: a list-valued production, or (category generator-iterable) a generator
+        expression - with or without a reference to the enclosing loop variables."""
+        if "generator-iterable" in self.avoid or not self.p(0.45):
+            return self.list(kind, 0, env)
+        self.tags.add("generator-iterable")
+        w = self.var(dict(env, **{target: "@target"}))   # not the name of the clause's own target
+        inner_env = {} if self.p(0.7) else env      # mostly loop invariant: no enclosing variable inside
+        src = self.list(kind, 0, inner_env)
+        if kind == "text":
+            elt = self.ch(["lower(%s)", "upper(%s)", "%s", "(%s + 'x')", "%s"]) % w
+        else:
+            elt = self.ch(["(%s + 1)", "(%s * 2)", "%s", "(%s %% 3)", "%s"]) % w
+        cond = ""
+        if self.p(0.3):
+            cond = " if %s %s %s" % (w, self.ch(CMP6), _lit(self.ch(self.info["texts"] if kind == "text" else self.info["ints"])))
+        # the iterable stays open (it is consumed lazily) while the rest of the enclosing generator runs: its variable
+        # counts as bound there and becomes reusable only together with the enclosing generator's own variables
+        env[w] = "@iter"
+        return "(%s for %s in %s%s)" % (elt, w, src, cond)
 
     def atom(self, d, env):
         c = self.rng.random()
@@ -648,7 +678,7 @@ class ExprGen:
         return self.bool(depth, {})
 
 
-def gen_expr(rng, depth=3, shape_info=None, support="must", avoid=DIVERGENT, with_tags=False):
+def gen_expr(rng, depth=3, shape_info=None, support="must", avoid=DEFAULT_AVOID, with_tags=False):
     """One selector expression (text).  rng: random.Random.  depth: nesting bound of the boolean/value productions.
     support="must": only must-support constructs; "any": may also contain may-reject constructs.
     avoid: categories (see module docstring) not to generate.  with_tags=True -> (expr, sorted tags)."""
